@@ -185,10 +185,11 @@ def l2_models(ctx, common, tabs, which):
             with open(os.path.join(ctx.work, "mc-fail.log"), "w") as f:
                 f.write(r["out"])
             raise C.ToolError("design check %s failed (model-level; not a property verdict)\n%s" % (name, r["out"][-2500:]))
-        d, _ = beh.drift(wd, behs, maxw, 2)
-        for k in ("comparisons", "drift", "env_gap"):
-            total[k] += d[k]
-        total["samples"] += d["samples"][:2]
+        for pred, ro in ((("pred", False), ("pred_on", True)) if name == "ImportMC" else (("pred", False),)):
+            d, _ = beh.drift(wd, behs, maxw, 2, pred=pred, ro=ro)
+            for k in ("comparisons", "drift", "env_gap"):
+                total[k] += d[k]
+            total["samples"] += d["samples"][:2]
         allb.extend(behs)
 
     if "eq" in which:
@@ -204,12 +205,15 @@ def l2_models(ctx, common, tabs, which):
     if "markup" in which:
         run("MarkupMC", lambda wd: beh.markup_behaviours(wd, 4 if q else 5, maxw=20), 20)
     if "dotchain" in which:
-        run("DotChainMC", lambda wd: beh.dotchain_behaviours(wd, 7 if q else 8, maxcmt=1 if q else 2), 44)
+        run("DotChainMC", lambda wd: beh.dotchain_behaviours(wd, 7, maxcmt=1 if q else 2), 44)
     if "comment" in which:
         run("CommentMC", lambda wd: beh.comment_behaviours(wd, 2 if q else 3), 16)
+    if "import" in which:
+        run("ImportMC", lambda wd: beh.import_behaviours(wd, ids=("a", "ab", "b", "ma") if q else ("a", "ab", "b", "ba", "ma", "mb"),
+                                                         maxtriv=1), 40)
     if "table" in which:
         kinds = ["cols2", "cell", "hdr", "gutter"] if q else ["cols2", "colsA", "cell", "hdr", "ftr", "hline", "hdrS", "gutter", "spread"]
-        run("TableMC", lambda wd: beh.table_behaviours(wd, kinds, 4, maxw=20), 20)
+        run("TableMC", lambda wd: beh.table_behaviours(wd, kinds, 4 if q else 3, maxw=20), 20)
     if "math" in which:
         run("MathArgsMC", lambda wd: beh.mathargs_behaviours(wd, 5 if q else 6, maxw=24), 24)
         run("MathDelimMC[block]", lambda wd: beh.mathdelim_behaviours(wd, 5 if q else 6, True, maxw=24), 24)
@@ -285,7 +289,7 @@ def c06(ctx):
     ctx.record("gap-ro", universe="gap", widths="all", single="1/2" if ctx.quick else "1/1", pair="0/1", tabs="2", ros="1",
                seed_tags="import", trivia_tags="cmt,off", parts="flat", passes="false")
     fmt_family(ctx, ["R06"], "flat", trivia_tags="cmt,off", gap_quick="1/6", pair_fixed="1/200",
-               models=("list", "chain", "markup", "eq", "table", "dotchain", "comment"))
+               models=("list", "chain", "markup", "eq", "table", "dotchain", "comment", "import"))
 
 
 def c08(ctx):
@@ -324,7 +328,7 @@ def c19(ctx):
     ctx.rec_summaries.append(dict(name="frontends", **{k: s3[k] for k in ("universe", "elements", "events", "format_calls",
                                                                            "nontrivial_events", "universe_stats")}))
     ctx.nontrivial += s3["nontrivial_events"]
-    fmt_family(ctx, ["R19", "R16"], "imp", models=(), seed_tags="import,markup", gap_quick="1/2", pair_fixed="1/20", pair_quick="1/10")
+    fmt_family(ctx, ["R19", "R16"], "imp", models=("import",), seed_tags="import,markup", gap_quick="1/2", pair_fixed="1/20", pair_quick="1/10")
 
 
 def c07(ctx):
@@ -352,7 +356,7 @@ def c07(ctx):
 # ---------------------------------------------------------------------------------------
 # C14 / C15 / C16 — the command-line driver (Cli.tla)
 
-CLI_CONSTS = ("CONSTANTS MaxPresent = %d\n MaxArgs = %d\n RootFixed = TRUE\n ReadFailCounted = TRUE\n DetWalk = %s\n")
+CLI_CONSTS = ("CONSTANTS MaxPresent = %d\n MaxArgs = %d\n RootFixed = TRUE\n ReadFailCounted = TRUE\n DetWalk = %s\n LinkFollowed = FALSE\n")
 CLI_CONJ = {
     "C14": ["CheckReadOnly", "CheckExit", "CheckSilent", "WriteOpensAllowed"],
     "C15": ["OnlyWhereAllowed", "WriteExactly", "Reported", "CleanExit", "SecondRunNoop", "NoInputRejected",
